@@ -89,6 +89,10 @@ def run(chk, replay=None):
     chk.proof_leg(MODEL_TARGETS, "Properties/C01.v", PROOF_FILES, "Properties.C01")
     kernel_tie_leg(chk, "gds_write")      # trait Encode (library -> records) generated from gds21/src/write.rs = flatten_lib of the writer model (Properties/KernelsGdsCodec.v)
     kernel_tie_leg(chk, "gds_read")       # GdsReader::read_record_header / read_record_content / read_record generated from gds21/src/read.rs = read_header / read_content / read_record of the reader model (Properties/KernelsGdsCodec.v)
+    kernel_tie_leg(chk, "gds_parse")      # GdsParser::parse_property / parse_strans generated from gds21/src/read.rs = the parser model (Properties/KernelsGdsCodec.v)
+    kernel_tie_leg(chk, "gds_parse_e1")   # GdsParser::parse_boundary / parse_path / parse_node / parse_box = parse_elem of Gds/GdsRead.v, fuel for fuel
+    kernel_tie_leg(chk, "gds_parse_e2")   # GdsParser::parse_struct_ref / parse_array_ref / parse_text_elem = parse_elem
+    kernel_tie_leg(chk, "gds_parse_lib")  # GdsParser::parse_struct / parse_lib (+ the generated read_record) = parse_struct / parse_lib / read_lib_fuel
     chk.assumptions += [
         "GdsFloat64 codec as modelled in Gds/GdsReal.v (C15)",
         "writing into a Vec<u8> (no I/O errors); reading from a byte slice (GdsLibrary::from_bytes); family file_io: GdsLibrary::save / open on a scratch file of a working file system",
